@@ -41,7 +41,7 @@ var (
 	repo    = flag.String("repo", "/repo", "rulio working tree")
 	verif   = flag.String("verif", "/verif", "verification tree (rt/, inject/)")
 	out     = flag.String("out", "", "scratch output directory")
-	level   = flag.Int("level", 1, "instrumentation level (1|2)")
+	level   = flag.Int("level", 1, "instrumentation level (1|2|3)")
 	pkgsF   = flag.String("pkgs", "core,cron,sys,service,crolt,storage/bolt", "rulio packages to instrument")
 	sheens  = flag.Bool("sheens", true, "also make sheens/match map order deterministic")
 	verbose = flag.Bool("v", false, "verbose")
@@ -57,6 +57,7 @@ type pkgRp struct {
 	MapRanges  int      `json:"map_ranges"`
 	GoStmts    int      `json:"go_stmts"`
 	ChanOps    int      `json:"chan_ops"`
+	MapAccess  int      `json:"map_accesses"`
 	Selects    int      `json:"selects"`
 	TimeSwaps  int      `json:"time_import_swaps"`
 	SyncSwaps  int      `json:"sync_import_swaps"`
@@ -345,6 +346,9 @@ func (fc *fileCtx) walkBlocks() {
 	if *level >= 2 {
 		fc.rewriteExprs()
 	}
+	if *level >= 3 && fc.generics {
+		fc.rewriteMapAccesses()
+	}
 }
 
 func (fc *fileCtx) rewriteList(list []ast.Stmt) []ast.Stmt {
@@ -363,6 +367,10 @@ func (fc *fileCtx) rewriteStmt(s ast.Stmt) ast.Stmt {
 				return st
 			}
 			return &ast.BlockStmt{List: append(pre, st)}
+		}
+		if sel, ok := st.Stmt.(*ast.SelectStmt); ok && *level >= 2 {
+			blk, _ := fc.rewriteSelectLabeled(sel, st.Label)
+			return blk
 		}
 		st.Stmt = fc.rewriteStmt(st.Stmt)
 		return st
@@ -485,6 +493,9 @@ func (fc *fileCtx) rewriteMapRange(st *ast.RangeStmt) (pre []ast.Stmt) {
 		keys = call("vmem__", "KeysSI", &ast.CallExpr{Fun: &ast.MapType{Key: ast.NewIdent("string"), Value: &ast.InterfaceType{Methods: &ast.FieldList{}}}, Args: []ast.Expr{m}})
 	case fc.generics:
 		keys = call("vmem__", "Keys", m)
+		if *level >= 3 {
+			keys = call("vmem__", "Keys", call("vmem__", "R", m, &ast.BasicLit{Kind: token.STRING, Value: strconvQuote("range:" + fc.exprText(m))}))
+		}
 	default:
 		ktxt := types.TypeString(mt.Key(), fc.qualifier)
 		kexpr, err := parser.ParseExpr("[]" + ktxt)
